@@ -11,22 +11,22 @@ Definition cmp_tab := [(Gt, RelGt); (GtE, RelGe); (Lt, RelLt); (LtE, RelLe); (CE
 Definition cmp_tab_struct := [(Gt, RelGt); (GtE, RelGe); (Lt, RelLt); (LtE, RelLe); (CEq, StructEq); (CNe, StructNe)].
 
 Definition facts_seq_subs : facts :=
-  mkFacts bin_tab un_tab cmp_tab true SubsSeq TupSim StmtRaise (CfContinuation BrCopy BrCopy) true true true ConstAtCall.
+  mkFacts bin_tab un_tab cmp_tab true SubsSeq TupSim StmtRaise (CfContinuation BrCopy BrCopy) true true true ConstAtCall FbLastAssigned ArityStrictNonEmpty.
 Definition facts_struct_eq : facts :=
-  mkFacts bin_tab un_tab cmp_tab_struct true SubsSim TupSim StmtRaise (CfContinuation BrCopy BrCopy) true true true ConstAtCall.
+  mkFacts bin_tab un_tab cmp_tab_struct true SubsSim TupSim StmtRaise (CfContinuation BrCopy BrCopy) true true true ConstAtCall FbLastAssigned ArityStrictNonEmpty.
 Definition facts_seq_tuple : facts :=
-  mkFacts bin_tab un_tab cmp_tab true SubsSim TupSeq StmtRaise (CfContinuation BrCopy BrCopy) true true true ConstAtCall.
+  mkFacts bin_tab un_tab cmp_tab true SubsSim TupSeq StmtRaise (CfContinuation BrCopy BrCopy) true true true ConstAtCall FbLastAssigned ArityStrictNonEmpty.
 
 (** def swap(a, b): return a - b *)
-Definition w_swap : fundef := mkFun [1; 2] [] (SCons (SReturn (EBin Sub (EVar 1) (EVar 2))) SNil).
+Definition w_swap : fundef := mkFun [1; 2] [] [] (SCons (SReturn (EBin Sub (EVar 1) (EVar 2))) SNil).
 (** def eqf(a, b):  if a == b: return 1 ;  return 0 *)
 Definition w_eqf : fundef :=
-  mkFun [1; 2] []
+  mkFun [1; 2] [] []
     (SCons (SIf (CCmp (EVar 1) (ChCons CEq (EVar 2) ChNil)) (SCons (SReturn (ENum 1)) SNil) SNil)
        (SCons (SReturn (ENum 0)) SNil)).
 (** def tuple_swap(a, b):  a, b = b, a ;  return a - b *)
 Definition w_tswap : fundef :=
-  mkFun [1; 2] []
+  mkFun [1; 2] [] []
     (SCons (STuple [1; 2] (ECons (EVar 2) (ECons (EVar 1) ENil)))
        (SCons (SReturn (EBin Sub (EVar 1) (EVar 2))) SNil)).
 
@@ -87,9 +87,9 @@ Qed.
           d = inner(b, a) + c  # code after the if; arguments swapped onto the callee's names
           return d                                                              *)
 Definition nv_inner : fundef :=
-  mkFun [1; 2] [] (SCons (SReturn (EBin Sub (EVar 1) (EBin Mul (ENum 2) (EVar 2)))) SNil).
+  mkFun [1; 2] [] [] (SCons (SReturn (EBin Sub (EVar 1) (EBin Mul (ENum 2) (EVar 2)))) SNil).
 Definition nv_outer : fundef :=
-  mkFun [1; 2] []
+  mkFun [1; 2] [] []
     (SCons (SAssign 3 (ENum 0))
     (SCons (SIf (CCmp (EVar 1) (ChCons Gt (ENum 1) ChNil))
               (SCons (SAssign 3 (EVar 1)) SNil)
@@ -119,7 +119,7 @@ Qed.
     The translator model with the OTHER shapes the fact [f_cf] can take returns wrong expressions on
     the corpus witnesses (harness/c06_corpus.py: leak, after_else, guard_then_reassign). *)
 Definition facts_cf (m : cf_mode) : facts :=
-  mkFacts bin_tab un_tab cmp_tab true SubsSim TupSim StmtRaise m true true true ConstAtCall.
+  mkFacts bin_tab un_tab cmp_tab true SubsSim TupSim StmtRaise m true true true ConstAtCall FbLastAssigned ArityStrictNonEmpty.
 (** one copy handed to both recursive calls (seeded C07-2) *)
 Definition facts_shared_copy : facts := facts_cf (CfContinuation BrShared BrShared).
 (** the if-branch works on the enclosing table itself *)
@@ -130,17 +130,17 @@ Definition facts_copy_if_binds : facts := facts_cf (CfContinuation BrCopyIfBinds
 Definition facts_old_pieces : facts := facts_cf CfOldPieces.
 (** constants through a per-module memo (seeded C06-3) *)
 Definition facts_cached_consts : facts :=
-  mkFacts bin_tab un_tab cmp_tab true SubsSim TupSim StmtRaise (CfContinuation BrCopy BrCopy) true true true ConstCached.
+  mkFacts bin_tab un_tab cmp_tab true SubsSim TupSim StmtRaise (CfContinuation BrCopy BrCopy) true true true ConstCached FbLastAssigned ArityStrictNonEmpty.
 
 (** def leak(a):  b = 0 ; if a > 1: b = a ; return b *)
 Definition w_leak : fundef :=
-  mkFun [1] []
+  mkFun [1] [] []
     (SCons (SAssign 2 (ENum 0))
     (SCons (SIf (CCmp (EVar 1) (ChCons Gt (ENum 1) ChNil)) (SCons (SAssign 2 (EVar 1)) SNil) SNil)
     (SCons (SReturn (EVar 2)) SNil))).
 (** def after_else(a):  if a > 1: b = a   else: b = a**2 ;  return b + 1 *)
 Definition w_after_else : fundef :=
-  mkFun [1] []
+  mkFun [1] [] []
     (SCons (SIf (CCmp (EVar 1) (ChCons Gt (ENum 1) ChNil))
               (SCons (SAssign 2 (EVar 1)) SNil)
               (SCons (SAssign 2 (EBin Pow (EVar 1) (ENum 2))) SNil))
@@ -151,7 +151,7 @@ Definition w_after_else : fundef :=
         x = x * 2
         return x + 1 *)
 Definition w_guard : fundef :=
-  mkFun [1; 2] []
+  mkFun [1; 2] [] []
     (SCons (SIf (CCmp (EVar 1) (ChCons Gt (ENum 1) ChNil))
               (SCons (SIf (CCmp (EVar 2) (ChCons Gt (ENum 0) ChNil)) (SCons (SReturn (EVar 2)) SNil) SNil) SNil)
               SNil)
@@ -159,7 +159,7 @@ Definition w_guard : fundef :=
     (SCons (SReturn (EBin Add (EVar 1) (ENum 1))) SNil))).
 (** def pass_then_reassign(x):  if x > 1: pass ;  x = x * 2 ;  return x + 1 *)
 Definition w_pass_guard : fundef :=
-  mkFun [1] []
+  mkFun [1] [] []
     (SCons (SIf (CCmp (EVar 1) (ChCons Gt (ENum 1) ChNil)) (SCons SPass SNil) SNil)
     (SCons (SAssign 1 (EBin Mul (EVar 1) (ENum 2)))
     (SCons (SReturn (EBin Add (EVar 1) (ENum 1))) SNil))).
@@ -236,7 +236,7 @@ Qed.
 (** ---- constants: a remembered table is a different function ------------------------------------
     def uses_k(a): return a * K     translated while K = 2.5, then K is rebound to 4 and the function
     is translated again: the memoised translator still embeds 2.5 *)
-Definition w_uses_k : mfun := mkMFun [1] 0 (SCons (SReturn (EBin Mul (EVar 1) (EVar 50))) SNil).
+Definition w_uses_k : mfun := mkMFun [1] [] 0 (SCons (SReturn (EBin Mul (EVar 1) (EVar 50))) SNil).
 
 Lemma cached_constants_wrong :
   exists first now ms i e vs v rho,
@@ -268,7 +268,7 @@ Qed.
 (** non-vacuity for whole-body refusal: an augmented assignment on ONE path behind two ifs
       def f(a):  if a > 1: (if a > 2: pass  else: a += 1) ;  return a          *)
 Definition w_deep_other : fundef :=
-  mkFun [1] []
+  mkFun [1] [] []
     (SCons (SIf (CCmp (EVar 1) (ChCons Gt (ENum 1) ChNil))
               (SCons (SIf (CCmp (EVar 1) (ChCons Gt (ENum 2) ChNil)) (SCons SPass SNil) (SCons SOther SNil)) SNil)
               SNil)
@@ -288,9 +288,9 @@ Definition w_deep_other : fundef :=
                                           return K                     # return in one branch only
                                       return r + 1                     # code after the if
     [w_constructs_kw] is the same with  g(b, y=a):  refused. *)
-Definition cm_g : mfun := mkMFun [1; 2] 1 (SCons (SReturn (EBin Sub (EBin Mul (EVar 1) (EVar 50)) (EVar 2))) SNil).
+Definition cm_g : mfun := mkMFun [1; 2] [] 1 (SCons (SReturn (EBin Sub (EBin Mul (EVar 1) (EVar 50)) (EVar 2))) SNil).
 Definition cm_f_with (call : expr) : mfun :=
-  mkMFun [1; 2; 3] 0
+  mkMFun [1; 2; 3] [] 0
     (SCons (SIf (CCmp (ENum 0) (ChCons LtE (EVar 1) (ChCons CEq (EVar 2) (ChCons CNe (EVar 3) (ChCons Lt (ENum 5) ChNil)))))
               (SCons (SAssign 4 call) SNil)
               (SCons (SIf (CCmp (EVar 1) (ChCons Gt (EVar 2) (ChCons GtE (EVar 3) ChNil)))
@@ -320,5 +320,87 @@ Lemma constructs_witness :
     refuses_ss (mf_body cm_f_kw) false = true /\ refuses_ss (mf_body cm_f) false = false.
 Proof.
   eexists. split; [vm_compute; reflexivity|].
+  repeat split; vm_compute; reflexivity.
+Qed.
+
+(** ---- the arity rule of nested calls and DEFAULT arguments ---------------------------------------
+      def saturation(s, n=2.0): return s**n / (1 + s**n)
+      def hill(s, vmax):        return vmax * saturation(s)          # relies on the default
+      def allopt(n=2.0):        return n * 3
+      def caller0(a):           return a + allopt()                  # zero arguments, all defaulted *)
+Definition facts_arity (m : arity_mode) : facts :=
+  mkFacts bin_tab un_tab cmp_tab true SubsSim TupSim StmtRaise (CfContinuation BrCopy BrCopy) true true true
+    ConstAtCall FbLastAssigned m.
+Definition w_saturation : fundef :=
+  mkFun [1; 2] [2#1] []
+    (SCons (SReturn (EBin Div (EBin Pow (EVar 1) (EVar 2)) (EBin Add (ENum 1) (EBin Pow (EVar 1) (EVar 2))))) SNil).
+Definition w_hill : fundef :=
+  mkFun [1; 3] [] [] (SCons (SReturn (EBin Mul (EVar 3) (ECall 0 (ECons (EVar 1) ENil)))) SNil).
+Definition w_allopt : fundef := mkFun [2] [2#1] [] (SCons (SReturn (EBin Mul (EVar 2) (ENum 3))) SNil).
+Definition w_caller0 : fundef := mkFun [1] [] [] (SCons (SReturn (EBin Add (EVar 1) (ECall 0 ENil))) SNil).
+
+(** zip without strict (seeded C07-6): hill is accepted, the helper's parameter n (name 2) stays a bare symbol;
+    python hill(2, 3/2) = 3/2 * 4/5 = 6/5; under a valuation that also binds a model component called n to 4
+    the expression gives 3/2 * 16/17 *)
+Lemma truncating_zip_wrong :
+  exists e rho,
+    fn_to_sympy (facts_arity ArityTruncate) [w_saturation; w_hill] 1 [SSym 1; SSym 3] = Some e /\
+    py_call [w_saturation; w_hill] 1 [2#1; 3#2] = Some (6#5) /\
+    Forall2 (fun m x => seval rho m = Some x) [SSym 1; SSym 3] [2#1; 3#2] /\
+    seval rho e <> Some (6#5).
+Proof.
+  eexists. exists (fun x => assoc x [(1, 2#1); (3, 3#2); (2, 4#1)]).
+  split; [vm_compute; reflexivity|].
+  split; [vm_compute; reflexivity|].
+  split; [repeat constructor|].
+  vm_compute. discriminate.
+Qed.
+
+(** both strict rules refuse hill *)
+Lemma strict_zip_refuses_short_call :
+  fn_to_sympy (facts_arity ArityStrict) [w_saturation; w_hill] 1 [SSym 1; SSym 3] = None /\
+  fn_to_sympy (facts_arity ArityStrictNonEmpty) [w_saturation; w_hill] 1 [SSym 1; SSym 3] = None /\
+  py_call [w_saturation; w_hill] 1 [2#1; 3#2] = Some (6#5).
+Proof. repeat split; vm_compute; reflexivity. Qed.
+
+(** the SHIPPED rule skips the zip for an empty argument list: caller0 is accepted with allopt's parameter n
+    (name 2) as a free symbol; python caller0(1) = 7 *)
+Lemma lenient_empty_call_wrong :
+  exists e rho,
+    fn_to_sympy (facts_arity ArityStrictNonEmpty) [w_allopt; w_caller0] 1 [SSym 1] = Some e /\
+    py_call [w_allopt; w_caller0] 1 [1#1] = Some (7#1) /\
+    Forall2 (fun m x => seval rho m = Some x) [SSym 1] [1#1] /\
+    seval rho e <> Some (7#1).
+Proof.
+  eexists. exists (fun x => assoc x [(1, 1#1)]).
+  split; [vm_compute; reflexivity|].
+  split; [vm_compute; reflexivity|].
+  split; [repeat constructor|].
+  vm_compute. discriminate.
+Qed.
+
+Lemma strict_refuses_empty_call :
+  fn_to_sympy (facts_arity ArityStrict) [w_allopt; w_caller0] 1 [SSym 1] = None /\
+  ~ arity_ok (facts_arity ArityStrictNonEmpty) [w_allopt; w_caller0] /\
+  arity_ok (facts_arity ArityStrictNonEmpty) [w_saturation; w_hill].
+Proof.
+  split; [vm_compute; reflexivity|]. split.
+  - intro H. vm_compute in H. discriminate H.
+  - vm_compute. reflexivity.
+Qed.
+
+(** non-vacuity with defaults: a helper with a defaulted trailing parameter called WITH the argument *)
+Definition w_hill_explicit : fundef :=
+  mkFun [1; 3] [] [] (SCons (SReturn (EBin Mul (EVar 3) (ECall 0 (ECons (EVar 1) (ECons (ENum 2) ENil))))) SNil).
+Lemma defaults_nonvacuous :
+  exists e,
+    arity_ok expected_facts [w_saturation; w_hill_explicit] /\
+    fn_to_sympy expected_facts [w_saturation; w_hill_explicit] 1 [SSym 3; SSym 1] = Some e /\
+    py_call [w_saturation; w_hill_explicit] 1 [2#1; 3#2] = Some (6#5) /\
+    py_call [w_saturation] 0 [2#1] = Some (4#5) /\
+    seval (fun x => assoc x [(3, 2#1); (1, 3#2)]) e = Some (6#5).
+Proof.
+  eexists. split; [first [exact I | vm_compute; reflexivity]|].
+  split; [vm_compute; reflexivity|].
   repeat split; vm_compute; reflexivity.
 Qed.
